@@ -89,6 +89,7 @@ def describe(fr, fd):
 def run(prop, tier):
     t0 = time.time()
     b = core.fresh_dir(os.path.join(core.ROOT, 'build', 'C19'))
+    planted = e4.selftest(b)
     talker = e4.build_program(b, 'acf-can-talker')
     listener = e4.build_program(b, 'acf-can-listener')
     cases = []      # (id, mode, count, frames(list per packet list))
@@ -189,7 +190,7 @@ def run(prop, tier):
                 assumptions=['only frames a CAN_RAW socket can deliver (classic len <= 8; FD frames carry CANFD_FDF); data beyond len not compared',
                              'FD mode of the listener is entered by setting its mode variable (its --fd option dereferences a null argument at start-up, outside this property)',
                              'both programs run under ASan+UBSan with pattern-initialised locals'],
-                recipe={'engine': 'c19'}, samples=['NTSCF/UDP/FD, 2 frames per packet: [id=0x123 EFF len=8 BRS FDF] then [id=0x123 len=1 ESI FDF]',
+                recipe={'engine': 'c19'}, extra_cov={'planted_bug_selftest': 'toy listener trusting a length byte: reported as ' + planted}, samples=['NTSCF/UDP/FD, 2 frames per packet: [id=0x123 EFF len=8 BRS FDF] then [id=0x123 len=1 ESI FDF]',
                                                   'TSCF/raw/classic single frame id=0x7FF EFF RTR len=0'])
 
 
